@@ -58,19 +58,23 @@ func appFree(s *sim.S, m *mangos.Message) {
 }
 
 // appSend hands m to send; on failure the message must still be the caller's, body intact.
-func appSend(s *sim.S, m *mangos.Message, send func(*mangos.Message) error) error {
+// hdrMatters (optional) says that the header is the caller's business too: raw REP / RESPONDENT sockets route by
+// it and restore it when a Send fails, so that the message can be sent again.
+func appSend(s *sim.S, m *mangos.Message, send func(*mangos.Message) error, hdrMatters ...bool) error {
 	if !ledgerOn.Load() {
-		hadHdr := len(m.Header) > 0
-		before := digest(m.Header) + digest(m.Body)
+		withHdr := len(hdrMatters) > 0 && hdrMatters[0]
+		sum := func() string {
+			if withHdr {
+				return digest(m.Header) + digest(m.Body)
+			}
+			return digest(m.Body)
+		}
+		before := sum()
 		err := send(m)
 		if err != nil {
-			// a failed Send leaves the message with the caller: the body as it was, and so the header the caller
-			// put there (raw sockets; a cooked socket writes its own header and may have begun to)
-			now := digest(m.Header) + digest(m.Body)
-			if !hadHdr {
-				now = digest(nil) + digest(m.Body)
-			}
-			if now != before {
+			// a failed Send leaves the message with the caller: the body as it was, and - where the header is the
+			// caller's - the header as it was
+			if sum() != before {
 				s.Rec.Emit("sendfailchanged", "r", err, "hl", len(m.Header), "len", len(m.Body))
 			}
 			m.Free()
